@@ -476,7 +476,7 @@ def _normalisation(repo, rep):
                                    or a == 'normalize_doc(%s)' % x for x in alias) or
                                any(x in _names(a) for x in alias) for a in e[2]):
                             kept = True
-                nil_guard = any(pol and _is_nil_test(t, alias) for t, pol in p.conds)
+                nil_guard = any(_is_nil_test(t, alias, pol) for t, pol in p.conds)
                 rep.check(kept or nil_guard, 'C04.f', '%s.normalize:child-kept[%s]' % (cname, p.cond_text()),
                           '%s:%d' % (m.relpath, lp.lineno), 'child retained or NIL',
                           '%s.normalize drops a child on path (%s) that is not known to be NIL'
@@ -597,12 +597,12 @@ def _names(text):
         return set()
 
 
-def _is_nil_test(text, alias):
+def _is_nil_test(text, alias, pol=True):
     try:
         t = ast.parse(text, mode='eval').body
     except SyntaxError:
         return False
-    cp = compare_parts(t)
+    cp = compare_parts(t, pol)
     if not cp or cp[1] not in ('is', '=='):
         return False
     l, _, r = cp
@@ -916,9 +916,17 @@ def _renderer_facts(rep, m, f, rule, allow_extra_writes):
             and not val.args and not val.keywords and src(val.func.value) == src(want)
         # idx comes from rfind_idx(lambda x: isinstance(x, str), line)
         idx_def = env.get(idx)
+        pred_src = ''
+        if idx_def is not None and isinstance(idx_def, ast.Call) and idx_def.args:
+            pa = idx_def.args[0]
+            pred_src = src(pa)
+            if isinstance(pa, ast.Name) and pa.id in m.funcs:
+                hf = m.funcs[pa.id]
+                rr = [r_ for r_ in ast.walk(hf.node) if isinstance(r_, ast.Return) and r_.value is not None]
+                pred_src = src(rr[0].value) if len(rr) == 1 else ''
         ok_idx = idx_def is not None and isinstance(idx_def, ast.Call) and call_name(idx_def) == 'rfind_idx' \
-            and 'isinstance' in src(idx_def.args[0]) and 'str' in src(idx_def.args[0]) \
-            and 'not' not in src(idx_def.args[0]).split()
+            and 'isinstance' in pred_src and 'str' in pred_src \
+            and 'not' not in pred_src.split()
         guarded = any(ff.text.replace(' ', '') in ('%s!=-1' % idx, '%s>=0' % idx, '%s>-1' % idx) and ff.pol
                       for ff in g.of(s))
         rep.check(ok_val and ok_idx and guarded, rule, '%s:trim-last-text' % f.name,
